@@ -1868,10 +1868,11 @@ def flatten(array, axis=1, highlevel=True, behavior=None):
                     if isinstance(content, ak._util.optiontypes) and not isinstance(
                         content, ak.layout.UnmaskedArray
                     ):
+                        selected = tags == tag
                         bigmask[:] = False
-                        bigmask[tags == tag] = nplike.asarray(content.bytemask()).view(
+                        bigmask[selected] = nplike.asarray(content.bytemask()).view(
                             np.bool_
-                        )
+                        )[index[selected]]
                         index[bigmask] = -1
 
                 good = index >= 0
